@@ -1232,7 +1232,12 @@ struct Gen {
       static const int big_focus[] = {OP_AUTOMORPHISM, OP_AUTOMORPHISM, OP_ROTATE, OP_IDFT, OP_DFT, OP_SMALL_PRODUCT, OP_VMP_APPLY_DFT, OP_SVP_APPLY_DFT, OP_NORMALIZE, OP_ADD, OP_NEGATE, OP_COPY};
       focus[0] = focus[1] = big_focus[r.below(12)];
     }
-    const bool use_focus = cfg.shared_setup && nm > 0 && (cfg.large_world || r.chance(75, 100));
+    if (cfg.column_world) {
+      static const int col_focus[] = {OP_ADD, OP_SUB, OP_ADD, OP_NORMALIZE, OP_ROTATE, OP_AUTOMORPHISM, OP_COPY, OP_NEGATE, OP_BIG_NORMALIZE, OP_SUB};
+      focus[0] = col_focus[r.below(10)];
+      focus[1] = col_focus[r.below(10)];
+    }
+    const bool use_focus = cfg.shared_setup && nm > 0 && (cfg.large_world || cfg.column_world || r.chance(75, 100));
     for (int t = 0; t < cfg.ntasks; ++t) {
       cur_task = t;
       int want = (int)r.range(cfg.min_calls, cfg.max_calls);
@@ -1247,6 +1252,34 @@ struct Gen {
       for (int tries = 0; (int)(P.calls.size() - start) < want && tries < want * 12; ++tries) emit_any();
     }
     cur_task = -1;
+    if (cfg.column_groups) {
+      // threads that split one result by columns: outputs of different tasks become interleaved columns of one block
+      std::map<uint64_t, std::vector<int>> by_n;
+      for (size_t i = 0; i < P.slots.size(); ++i) {
+        const Slot& s = P.slots[i];
+        if (s.type == T_ZV && s.owner >= 0 && !s.input && !s.liballoc && s.neighbor_of < 0 && !s.reserve && s.size > 0) by_n[s.n].push_back((int)i);
+      }
+      int gid = 0;
+      for (auto& kv : by_n) {
+        std::vector<int>& v = kv.second;
+        for (size_t i = v.size(); i > 1; --i) std::swap(v[i - 1], v[r.below(i)]);
+        if (v.size() > 6) v.resize(6);
+        bool two_owners = false;
+        for (int si : v)
+          if (P.slots[si].owner != P.slots[v[0]].owner) two_owners = true;
+        if (!two_owners) continue;
+        for (size_t k = 0; k < v.size(); ++k) {
+          Slot& s = P.slots[v[k]];
+          s.group = gid;
+          s.gidx = (int)k;
+          s.gcols = v.size();
+          s.sl = v.size() * s.n;
+          s.place = P.slots[v[0]].place;
+          s.off8 = P.slots[v[0]].off8;
+        }
+        gid++;
+      }
+    }
     if (cfg.shared_setup) {
       // documented warm-up protocol of the *_simple API: one completed call per (function, dimension) on the main
       // thread before any concurrent use. Un-warmed concurrent first use is outside the contract and never generated.
